@@ -179,5 +179,29 @@ theorem toDag_acyclic (p : PD) (res : List (Var × Var))
     obtain ⟨c, hxc, _⟩ := TransGen.head'_iff.mp hcyc
     exact hx (hdir _ hxc).1
 
+/-- the accumulator of the sink-removal loop only grows -/
+theorem go_keeps_acc : ∀ (fuel : Nat) (R : List Var) (dir und acc res : List (Var × Var)),
+    toDag.go fuel R dir und acc = some res → ∀ e ∈ acc, e ∈ res
+  | 0, R, dir, und, acc, res, hgo => by
+    unfold toDag.go at hgo
+    split at hgo
+    · cases hgo; exact fun e he => he
+    · cases hgo
+  | f+1, R, dir, und, acc, res, hgo => by
+    unfold toDag.go at hgo
+    split at hgo
+    · cases hgo; exact fun e he => he
+    · simp only at hgo
+      split at hgo
+      · cases hgo
+      · intro e he
+        exact go_keeps_acc f _ _ _ _ res hgo e (List.mem_append.mpr (Or.inl he))
+
+/-- **`PDAG.to_dag` keeps every directed edge of the PDAG** (it only adds orientations of undirected edges) -/
+theorem toDag_keeps_directed (p : PD) (res : List (Var × Var)) (h : p.toDag = some res) :
+    ∀ e ∈ p.directed, e ∈ res := by
+  unfold toDag at h
+  exact go_keeps_acc _ _ _ _ _ res h
+
 end PD
 end PgmVerif
